@@ -408,12 +408,12 @@ func main() {
 		"memory-model effects below the granularity of synchronisation operations are covered only through the detector's happens-before analysis",
 		"the k-th receive -> (k+cap)-th send edge of buffered channels is emulated per channel (can only lose a report)",
 	}
-	names := []string{"rw", "rw-nap", "search", "close", "close-s", "close-pause", "close-pause-u", "reopen-close-pause", "stats"}
+	names := []string{"rw", "rw-nap", "search", "close", "close+rev", "close-s", "close-s+rev", "close-pause", "close-pause-u", "close-pause-u+rev", "reopen-close-pause", "reopen-close-pause+rev", "rw+rev", "stats"}
 	if os.Getenv("VERIF_ONLY") != "" {
 		names = strings.Split(os.Getenv("VERIF_ONLY"), ",")
 	}
 	bound := c.Pick(1, 2)
-	budget := c.PickD(90*time.Second, 20*time.Minute)
+	budget := c.PickD(150*time.Second, 20*time.Minute)
 	deadline := time.Now().Add(budget)
 	for i, n := range names {
 		per := time.Until(deadline) / time.Duration(len(names)-i)
